@@ -286,13 +286,12 @@ class SmallVector {
       if (sz < N) {
         ptr = inlineData();
       } else {
-        growToHeap(N * 2);
-        ptr = storage_.heap_.ptr;
+        return emplaceBackGrow(N * 2, std::forward<Args>(args)...);
       }
     } else {
       size_type sz = rawSize();
       if (sz == storage_.heap_.capacity) {
-        growToHeap(storage_.heap_.capacity * 2);
+        return emplaceBackGrow(storage_.heap_.capacity * 2, std::forward<Args>(args)...);
       }
       ptr = storage_.heap_.ptr;
     }
@@ -346,10 +345,20 @@ class SmallVector {
   void resize(size_type count, const T& value) {
     size_type sz = rawSize();
     if (count > sz) {
-      ensureCapacity(count);
-      T* ptr = data();
-      for (size_type i = sz; i < count; ++i) {
-        new (ptr + i) T(value);
+      if (count > capacity()) {
+        // value may refer to an element of this vector, which the reallocation relocates: keep a copy
+        // (as std::vector does) before growing.
+        const T saved(value);
+        ensureCapacity(count);
+        T* ptr = data();
+        for (size_type i = sz; i < count; ++i) {
+          new (ptr + i) T(saved);
+        }
+      } else {
+        T* ptr = data();
+        for (size_type i = sz; i < count; ++i) {
+          new (ptr + i) T(value);
+        }
       }
       setSize(count);
     } else if (count < sz) {
@@ -436,6 +445,29 @@ class SmallVector {
     } else {
       ::operator delete(ptr);
     }
+  }
+
+  // emplace_back when the current storage is full. The new element is constructed in the new block
+  // *before* the old elements are relocated, because an argument may refer to an element of this
+  // vector (a.push_back(a.front())), which std::vector supports.
+  template <typename... Args>
+  reference emplaceBackGrow(size_type newCap, Args&&... args) {
+    T* newData = allocateHeap(newCap);
+    T* oldData = data();
+    size_type sz = rawSize();
+    new (newData + sz) T(std::forward<Args>(args)...);
+    for (size_type i = 0; i < sz; ++i) {
+      new (newData + i) T(std::move(oldData[i]));
+      oldData[i].~T();
+    }
+    if (!isInline()) {
+      deallocateHeap(storage_.heap_.ptr);
+    }
+    storage_.heap_.ptr = newData;
+    storage_.heap_.capacity = newCap;
+    size_ = kHeapBit | (sz + 1);
+    assert(rawSize() > 0 && "Size overflow into heap bit");
+    return newData[sz];
   }
 
   // Grow to heap storage with the specified capacity.
